@@ -1775,6 +1775,17 @@ static void do_dump_replay(struct uftrace_dump_ops *ops, struct uftrace_opts *op
 			task->rstack->addr = fstack->addr;
 			task->rstack->more = 0;
 
+			/*
+			 * a task that was switched out and never ran again:
+			 * end linux:schedule like a sched-in event does
+			 * (the event id is not an address of a function)
+			 */
+			if (fstack->addr == EVENT_ID_PERF_SCHED_OUT ||
+			    fstack->addr == EVENT_ID_PERF_SCHED_OUT_PREEMPT) {
+				task->rstack->type = UFTRACE_EVENT;
+				task->rstack->addr = EVENT_ID_PERF_SCHED_IN;
+			}
+
 			if (!check_task_rstack(task, opts))
 				continue;
 
